@@ -78,7 +78,7 @@ def pool_text(src):
 #       conv (numerical method fails after all parameter sets were tried)
 FAIL_SIMS = {
     "nophase": ("input", "SOLUTION 1\n Na 1\n Cl 1\nEQUILIBRIUM_PHASES 1\n Nosuchphase 0 1\nEND\n"),
-    "nomix": ("input", "SOLUTION 1\n Na 1\n Cl 1\nEND\nMIX 1\n 1 1\n 7 1\nEND\n"),
+    "nomix": ("input", "SOLUTION 1\n Na 1\n Cl 1\nEND\nMIX 1\n 1 1\n 77 1\nEND\n"),
     "badopt": ("input", "SOLUTION 1\n Na 1\n Cl 1\n -nosuchoption 3\nEND\n"),
     "badelt": ("input", "SOLUTION 1\n Na 1\n Cl 1\nREACTION 1\n Zzq 1\n 1 mmol\nEND\n"),
     "negconc": ("abort", "SOLUTION 1\n Na 1\n Cl 1\nREACTION 1\n NaCl 1\n -10 moles\nEND\n"),
@@ -87,7 +87,6 @@ FAIL_SIMS = {
     "basic_in_step": ("abort", "SOLUTION 1\n Na 1\n Cl 1\nREACTION 1\n NaCl 1\n 1 2 3 mmol\nSELECTED_OUTPUT 1\n -totals Na\nUSER_PUNCH 1\n-headings a\n10 DIM a(2)\n20 IF STEP_NO >= 2 THEN a(5) = 1\n30 PUNCH STEP_NO\nEND\n"),
     "iter1": ("conv", "SOLUTION 1\n Na 1\n Cl 1\nKNOBS\n -iterations 1\nEQUILIBRIUM_PHASES 1\n Calcite 0 1\n Gypsum 0 1\nEND\n"),
     "hugereact": ("conv", "SOLUTION 1\n Na 1\n Cl 1\nREACTION 1\n NaCl 1\n 1e5 moles\nEND\n"),
-    "temp2000": ("conv", "SOLUTION 1\n Na 1\n Cl 1\nREACTION_TEMPERATURE 1\n 2000\nEND\n"),
     "conv_fail": ("conv", None),  # gtest/conv_fail.in
 }
 
@@ -119,6 +118,7 @@ PROBES = {
     "leftover_calc": ("SOLUTION 1\n" + SOL_ALT + "SELECTED_OUTPUT 1\n -reset false\nUSER_PUNCH 1\n-headings cv\n"
                       "10 PUNCH CALC_VALUE(\"cv_hist\")\nEND\n"),
     "leftover_use": ("USE solution 1\nUSE equilibrium_phases 1\nUSE exchange 1\nUSE surface 1\nUSE gas_phase 1\nUSE reaction 1\n"
+                     "USE mix 1\nUSE kinetics 1\nUSE solid_solutions 1\nUSE reaction_temperature 1\nUSE reaction_pressure 1\n"
                      "SELECTED_OUTPUT 1\n -totals Na Cl Ca\nEND\n"),
     "leftover_cells": "RUN_CELLS\n -cells 0-8\nEND\n",
     "leftover_species": "SOLUTION 1\n pH 7\n Na 1\n Cl 1\n Xq 0.5\nEQUILIBRIUM_PHASES 1\n XqCl_s 0 0\nEND\n",
@@ -133,6 +133,9 @@ PROBES = {
     "transport_diff": ("SOLUTION 0\n" + SOL_ALT + "SOLUTION 1-4\n" + SOL_BASE + "EXCHANGE 1-4\n X 0.01\n -equilibrate 1\n"
                        "SELECTED_OUTPUT 1\n -totals Na Cl K\n -molalities NaX KX\n"
                        "TRANSPORT\n -cells 4\n -shifts 3\n -time_step 86400\n -flow_direction diffusion_only\n -lengths 0.01\nEND\n"),
+    # the restart file that TRANSPORT -dump writes lists the transport members (and consults the PRINT -high_precision flag)
+    "transport_dumpfile": ("SOLUTION 0\n" + SOL_ALT + "SOLUTION 1-2\n" + SOL_BASE +
+                           "TRANSPORT\n -cells 2\n -shifts 2\n -dump c07_probe.dmp\n -dump_frequency 1\nEND\n"),
     "advection_min": ("SOLUTION 0\n" + SOL_ALT + "SOLUTION 1-2\n" + SOL_BASE + "SELECTED_OUTPUT 1\n -totals Na Cl K\n"
                       "USER_PUNCH 1\n-headings tt\n10 PUNCH TOTAL_TIME\nADVECTION\n -cells 2\n -shifts 3\nEND\n"),
     "advection_bare": ("SOLUTION 0\n" + SOL_ALT + "SOLUTION 1-2\n" + SOL_BASE + "SELECTED_OUTPUT 1\n -totals Na Cl K\n"
@@ -184,9 +187,9 @@ PROBE_NAMES = sorted(PROBES)
 
 # which probes look at what a history item of a given tag may leave behind (used to bias, never to restrict)
 RELATED = {
-    "knobs": ["solver_trace", "plain", "surface_dl", "gas_ss"], "print": ["plain", "selout_defaults", "warnings"],
+    "knobs": ["solver_trace", "plain", "surface_dl", "gas_ss"], "print": ["plain", "selout_defaults", "warnings", "transport_dumpfile"],
     "selout": ["selout_defaults", "plain", "leftover_use", "basic_memory"], "basic": ["basic_memory", "leftover_calc", "leftover_rate", "kinetics"],
-    "transport": ["transport_min", "transport_bare", "transport_diff", "advection_min", "leftover_cells", "kinetics"],
+    "transport": ["transport_min", "transport_bare", "transport_diff", "transport_dumpfile", "advection_min", "leftover_cells", "kinetics"],
     "advection": ["advection_min", "advection_bare", "transport_bare"], "incr": ["reaction_steps", "kinetics", "solver_trace"],
     "kinetics": ["kinetics", "leftover_rate", "basic_memory"], "model": ["brine", "plain", "temp_press"],
     "isotopes": ["isotopes", "isotope_option", "plain"], "entities": ["leftover_use", "leftover_cells", "dump_all", "mix_copy"],
